@@ -43,6 +43,8 @@ typedef struct Ent {
 	                       // after its deadline had already passed, and no
 	                       // timeout has been delivered for this aio since
 	bool      in_start;    // inside nni_aio_start / nni_sleep_aio
+	bool      start_fresh; // the accepted submission had an absolute expiration of its own
+	int       start_timeout;
 	bool      abs_fresh;   // nni_aio_set_expire was called for the submission
 	                       // about to start (cleared by start and completion)
 	uint64_t  refusal_mask; // bit (k mod 64): completion k was a refused start
@@ -222,10 +224,12 @@ note_completion(nni_task *task, bool sync)
 			    e->prev_late ? "early_timeout_stale_expiry"
 			                 : "early_timeout",
 			    "aio #%u timed out at %llu ms, %llu ms before its "
-			    "deadline (started %llu)",
+			    "deadline (started %llu; timeout %d ms%s%s)",
 			    e->id, (unsigned long long) now,
 			    (unsigned long long) (e->expire_ms - now),
-			    (unsigned long long) e->start_ms);
+			    (unsigned long long) e->start_ms, e->start_timeout,
+			    e->start_fresh ? ", absolute expiration set for this submission" : "",
+			    e->sleeping ? ", sleep" : "");
 		}
 		if (e->sleeping && aio->a_result == NNG_OK && e->expire_ms != 0 &&
 		    now < e->expire_ms) {
@@ -234,7 +238,9 @@ note_completion(nni_task *task, bool sync)
 			    e->id, (unsigned long long) (e->expire_ms - now));
 		}
 	}
-	if (aio->a_result == NNG_ETIMEDOUT) {
+	if (aio->a_result == NNG_ETIMEDOUT && e->accepted && !e->in_start) {
+		// (a submission refused with NNG_ETIMEDOUT, zero timeout, is not
+		// the expire thread's doing and says nothing about its batch)
 		e->prev_late = false; // the expire thread has dealt with this aio
 	} else if (e->accepted && e->expire_ms != 0 && sim_now_ms() >= e->expire_ms) {
 		e->prev_late = true;
@@ -309,6 +315,8 @@ __wrap_nni_aio_start(nni_aio *aio, nni_aio_cancel_fn fn, void *data)
 			C.accepted++;
 			e->accepted  = true;
 			e->sleeping  = sleeping;
+			e->start_fresh   = fresh;
+			e->start_timeout = (int) aio->a_timeout;
 			e->start_ms  = sim_now_ms();
 			e->expire_ms = aio->a_expire == NNI_TIME_NEVER
 			    ? 0
